@@ -9,6 +9,7 @@ import (
 	"context"
 	"crypto/tls"
 	"fmt"
+	"strings"
 	"sync"
 	"testing"
 	"time"
@@ -16,6 +17,7 @@ import (
 	"github.com/jamf/regatta/regattapb"
 	"google.golang.org/grpc"
 	"google.golang.org/grpc/credentials"
+	"google.golang.org/grpc/credentials/insecure"
 	"pgregory.net/rapid"
 
 	"verifharness/internal/binfx"
@@ -34,12 +36,14 @@ type wireProc struct {
 	apiCN, apiHost   string
 	replCN, replHost string
 	clientCertAuth   bool
+	scheme           string // https (default) | unixs: TLS over a unix domain socket
 }
 
 var wireProcs = []wireProc{
 	{apiCN: goodCN, replHost: "node7.regatta.internal"},
 	{apiHost: "10.1.2.3", replCN: goodCN},
 	{clientCertAuth: true}, // trusted CA only on both endpoints
+	{apiCN: goodCN, replCN: goodCN, scheme: "unixs"},
 }
 
 var wireEndpoints = []wireEndpoint{
@@ -49,6 +53,8 @@ var wireEndpoints = []wireEndpoint{
 	{proc: 1, repl: true, allowedCN: goodCN},
 	{proc: 2},
 	{proc: 2, repl: true},
+	{proc: 3, allowedCN: goodCN},
+	{proc: 3, repl: true, allowedCN: goodCN},
 }
 
 type WireCase struct {
@@ -57,6 +63,8 @@ type WireCase struct {
 	// PrevPlus1 > 0: the client (one TLS session cache, one server name - all endpoints share the server certificate) first connects to
 	// endpoint PrevPlus1-1 with the same certificate and only then to Endpoint; what an endpoint decided must not carry over to another
 	PrevPlus1 int `json:"prev_plus1,omitempty"`
+	// Plain: the client does not speak TLS at all (no handshake, hence no certificate): never to be served by a TLS endpoint
+	Plain bool `json:"plain,omitempty"`
 }
 
 func genWire(t *rapid.T) WireCase {
@@ -90,6 +98,7 @@ func genWire(t *rapid.T) WireCase {
 		}
 	}
 	c.Cert = s
+	c.Plain = rapid.IntRange(0, 9).Draw(t, "plain") == 0
 	if rapid.IntRange(0, 2).Draw(t, "hasprev") == 0 {
 		c.PrevPlus1 = 1 + rapid.IntRange(0, len(wireEndpoints)-1).Draw(t, "prev")
 	}
@@ -101,6 +110,9 @@ var (
 	wirePs   []*binfx.Proc
 	wireErr  error
 )
+
+// plaintextClient: marker for a client that does not speak TLS.
+var plaintextClient = &tls.Certificate{}
 
 func wireCall(p *pki, proc *binfx.Proc, repl bool, cert *tls.Certificate, d time.Duration) error {
 	return wireCallS(p, proc, repl, cert, d, nil)
@@ -118,7 +130,15 @@ func wireCallS(p *pki, proc *binfx.Proc, repl bool, cert *tls.Certificate, d tim
 	if repl {
 		addr = proc.Repl
 	}
-	conn, err := grpc.NewClient("passthrough:///"+addr, grpc.WithTransportCredentials(credentials.NewTLS(ccfg)))
+	target := "passthrough:///" + addr
+	if strings.HasPrefix(addr, "unix://") {
+		target = addr
+	}
+	creds := credentials.NewTLS(ccfg)
+	if cert == plaintextClient {
+		creds = insecure.NewCredentials()
+	}
+	conn, err := grpc.NewClient(target, grpc.WithTransportCredentials(creds))
 	if err != nil {
 		return err
 	}
@@ -168,7 +188,11 @@ func wireFixture() error {
 				if wp.clientCertAuth {
 					extra = append(extra, "--api.client-cert-auth=true", "--replication.client-cert-auth=true")
 				}
-				proc, err := binfx.Start(binfx.Opts{Role: "leader", APIScheme: "https", ReplScheme: "https", Extra: extra, ConfigYAML: cfgYAML})
+				scheme := "https"
+				if wp.scheme != "" {
+					scheme = wp.scheme
+				}
+				proc, err := binfx.Start(binfx.Opts{Role: "leader", APIScheme: scheme, ReplScheme: scheme, Extra: extra, ConfigYAML: cfgYAML})
 				mu.Lock()
 				defer mu.Unlock()
 				if err != nil && wireErr == nil {
@@ -197,6 +221,11 @@ func wireFixture() error {
 					}
 					err := wireCall(p, proc, repl, good, 2*time.Second)
 					if err == nil {
+						break
+					}
+					// readiness must not depend on what is being judged: an endpoint that answers a plaintext client is up as well
+					// (the cases decide what that means)
+					if wireCall(p, proc, repl, plaintextClient, 2*time.Second) == nil {
 						break
 					}
 					if time.Now().After(deadline) {
@@ -228,6 +257,13 @@ func runWire(c WireCase, o *vt.Obs) *vt.Failure {
 		return nil
 	}
 	want, why := p.shouldAccept(TLSCase{AllowedCN: ep.allowedCN, AllowedHostname: ep.allowedHostname}, chain)
+	if c.Plain {
+		cert, want, why = plaintextClient, false, "does not speak TLS at all (plaintext HTTP/2), so it presents no certificate"
+		o.Label("wire-plaintext-client")
+	}
+	if wireProcs[ep.proc].scheme == "unixs" {
+		o.Label("wire-unixs-endpoint")
+	}
 	var cache tls.ClientSessionCache
 	if c.PrevPlus1 > 0 && c.PrevPlus1 <= len(wireEndpoints) {
 		cache = tls.NewLRUClientSessionCache(8)
